@@ -46,7 +46,7 @@ Section P.
   Variable fields_of : string -> list fspec.
   Variable xmlname_of : string -> string.
   Variable cov : string -> fspec -> bool.
-  Variable elty : string -> option string.
+  Variable elty : string -> string -> option string.
 
   Notation write := (write fields_of xmlname_of).
   Notation read := (read fields_of cov elty).
@@ -160,10 +160,10 @@ Section P.
     intros H. rewrite <- (app_nil_r a). rewrite first_text_other by exact H. reflexivity.
   Qed.
 
-  Lemma sel_any_app rd a b : sel_any elty rd (a ++ b) = (sel_any elty rd a ++ sel_any elty rd b)%list.
+  Lemma sel_any_app rd ty a b : sel_any elty rd ty (a ++ b) = (sel_any elty rd ty a ++ sel_any elty rd ty b)%list.
   Proof.
     induction a as [|k a IH]; [reflexivity|]. cbn [app sel_any].
-    destruct (elty (x_name k)); [cbn [app]; f_equal; exact IH | exact IH].
+    destruct (elty ty (x_name k)); [cbn [app]; f_equal; exact IH | exact IH].
   Qed.
 
   Definition not_any (sp : fspec) : bool :=
@@ -291,11 +291,11 @@ Section P.
     f_equal; [rewrite <- Ht; apply Hq; exact Hcc | apply IH; assumption].
   Qed.
 
-  Lemma sel_any_block l :
+  Lemma sel_any_block ty l :
     Forall Q l ->
-    forallb (fun c => is_node c && not_misread xmlname_of elty c && conforms c) l = true ->
-    sel_any elty read (map (fun c => write (xmlname_of (d_ty c)) c) l)
-    = keep_readable xmlname_of elty erase l.
+    forallb (fun c => is_node c && not_misread xmlname_of elty ty c && conforms c) l = true ->
+    sel_any elty read ty (map (fun c => write (xmlname_of (d_ty c)) c) l)
+    = keep_readable xmlname_of elty erase ty l.
   Proof.
     induction l as [|c l IH]; intros HQ Hc; [reflexivity|].
     cbn [map sel_any keep_readable]. rewrite x_name_write.
@@ -303,7 +303,7 @@ Section P.
     apply andb_true_iff in Hc1. destruct Hc1 as [Hc1 Hcc]. apply andb_true_iff in Hc1. destruct Hc1 as [_ Hnm].
     inversion HQ as [|? ? Hq Hql]; subst.
     unfold readable. unfold not_misread in Hnm.
-    destruct (elty (xmlname_of (d_ty c))) as [t|] eqn:E.
+    destruct (elty ty (xmlname_of (d_ty c))) as [t|] eqn:E.
     - rewrite Hnm. apply String.eqb_eq in Hnm. subst t. f_equal; [apply Hq; exact Hcc | apply IH; assumption].
     - apply IH; assumption.
   Qed.
@@ -314,7 +314,7 @@ Section P.
     let specs := fields_of ty in
     Forall PP vals ->
     In (sp, v) (combine specs vals) ->
-    c_field xmlname_of elty conforms sp v = true ->
+    c_field xmlname_of elty conforms ty sp v = true ->
     r_field cov elty read ty (w_attrs specs vals) (w_text specs vals) (w_kids specs vals) sp
     = e_field xmlname_of cov elty erase ty sp v.
   Proof.
@@ -376,7 +376,7 @@ Section P.
     Forall PP vals ->
     forall ss vs,
       (forall p, In p (combine ss vs) -> In p (combine specs vals)) ->
-      c_fields xmlname_of elty conforms ss vs = true ->
+      c_fields xmlname_of elty conforms ty ss vs = true ->
       map (r_field cov elty read ty (w_attrs specs vals) (w_text specs vals) (w_kids specs vals)) ss
       = e_fields xmlname_of cov elty erase ty ss vs.
   Proof.
@@ -428,7 +428,7 @@ Section P2.
   Variable fields_of : string -> list fspec.
   Variable xmlname_of : string -> string.
   Variable cov : string -> fspec -> bool.
-  Variable elty : string -> option string.
+  Variable elty : string -> string -> option string.
 
   Notation erase := (erase fields_of xmlname_of cov elty).
   Notation conforms := (conforms fields_of xmlname_of elty).
@@ -441,21 +441,21 @@ Section P2.
   Lemma d_ty_erase d : d_ty (erase d) = d_ty d.
   Proof. destruct d; reflexivity. Qed.
 
-  Lemma readable_erase d : readable (erase d) = readable d.
+  Lemma readable_erase ty d : readable ty (erase d) = readable ty d.
   Proof. unfold Schema.readable. rewrite d_ty_erase. reflexivity. Qed.
 
-  Lemma not_misread_erase d : not_misread (erase d) = not_misread d.
+  Lemma not_misread_erase ty d : not_misread ty (erase d) = not_misread ty d.
   Proof. unfold Schema.not_misread. rewrite d_ty_erase. reflexivity. Qed.
 
   Lemma is_node_erase d : is_node (erase d) = is_node d.
   Proof. destruct d; reflexivity. Qed.
 
   (* ---- erase is idempotent ---- *)
-  Lemma keep_readable_idem l :
-    Forall (fun c => erase (erase c) = erase c) l -> keep_readable (keep_readable l) = keep_readable l.
+  Lemma keep_readable_idem ty l :
+    Forall (fun c => erase (erase c) = erase c) l -> keep_readable ty (keep_readable ty l) = keep_readable ty l.
   Proof.
     induction l as [|c l IH]; intros H; [reflexivity|]. inversion H as [|? ? Hc Hl]; subst.
-    cbn [Schema.keep_readable]. destruct (readable c) eqn:R; [|apply IH; exact Hl].
+    cbn [Schema.keep_readable]. destruct (readable ty c) eqn:R; [|apply IH; exact Hl].
     cbn [Schema.keep_readable]. rewrite readable_erase, R, Hc. f_equal. apply IH; exact Hl.
   Qed.
 
@@ -509,20 +509,20 @@ Section P2.
     cbn [map forallb]. rewrite d_ty_erase, Ht, (Hq Hcc), (IH Hl Hc2). reflexivity.
   Qed.
 
-  Lemma c_any_erase l :
+  Lemma c_any_erase ty l :
     Forall CE l ->
-    forallb (fun c => is_node c && not_misread c && conforms c) l = true ->
-    forallb (fun c => is_node c && not_misread c && conforms c) (keep_readable l) = true.
+    forallb (fun c => is_node c && not_misread ty c && conforms c) l = true ->
+    forallb (fun c => is_node c && not_misread ty c && conforms c) (keep_readable ty l) = true.
   Proof.
     induction l as [|c l IH]; intros H Hc; [reflexivity|]. inversion H as [|? ? Hq Hl]; subst.
     cbn [forallb] in Hc. apply andb_true_iff in Hc. destruct Hc as [Hc1 Hc2].
     apply andb_true_iff in Hc1. destruct Hc1 as [Hc1 Hcc]. apply andb_true_iff in Hc1. destruct Hc1 as [Hn Hm].
-    cbn [Schema.keep_readable]. destruct (readable c); [|apply IH; assumption].
+    cbn [Schema.keep_readable]. destruct (readable ty c); [|apply IH; assumption].
     cbn [forallb]. rewrite is_node_erase, not_misread_erase, Hn, Hm, (Hq Hcc), (IH Hl Hc2). reflexivity.
   Qed.
 
   Lemma c_field_erase ty sp v :
-    elems_sat CE v -> c_field sp v = true -> c_field sp (e_field ty sp v) = true.
+    elems_sat CE v -> c_field ty sp v = true -> c_field ty sp (e_field ty sp v) = true.
   Proof.
     intros H Hc. unfold Schema.e_field, Schema.c_field in *.
     destruct (f_kind sp) eqn:K; destruct (f_shape sp) eqn:Sh; destruct v as [s|l|t vs]; cbn [elems_sat] in H;
@@ -532,7 +532,7 @@ Section P2.
   Qed.
 
   Lemma c_fields_erase ty : forall ss vs,
-      Forall (elems_sat CE) vs -> c_fields ss vs = true -> c_fields ss (e_fields ty ss vs) = true.
+      Forall (elems_sat CE) vs -> c_fields ty ss vs = true -> c_fields ty ss (e_fields ty ss vs) = true.
   Proof.
     induction ss as [|sp ss IH]; intros vs H Hc.
     - destruct vs; [reflexivity | discriminate Hc].
@@ -565,9 +565,9 @@ Section P2.
     cbn [map]. rewrite (Hq Hcc Hi1), (IH Hl Hc2 Hi2). reflexivity.
   Qed.
 
-  Lemma i_any l :
-    Forall IE l -> forallb (fun c => is_node c && not_misread c && conforms c) l = true ->
-    forallb (fun c => readable c && intact c) l = true -> keep_readable l = l.
+  Lemma i_any ty l :
+    Forall IE l -> forallb (fun c => is_node c && not_misread ty c && conforms c) l = true ->
+    forallb (fun c => readable ty c && intact c) l = true -> keep_readable ty l = l.
   Proof.
     induction l as [|c l IH]; intros H Hc Hi; [reflexivity|]. inversion H as [|? ? Hq Hl]; subst.
     cbn [forallb] in Hc, Hi. apply andb_true_iff in Hc. destruct Hc as [Hc1 Hc2].
@@ -577,7 +577,7 @@ Section P2.
   Qed.
 
   Lemma i_field_id ty sp v :
-    elems_sat IE v -> c_field sp v = true -> i_field intact ty sp v = true -> e_field ty sp v = v.
+    elems_sat IE v -> c_field ty sp v = true -> i_field intact ty sp v = true -> e_field ty sp v = v.
   Proof.
     intros H Hc Hi. unfold Schema.e_field, Schema.c_field, Schema.i_field in *.
     destruct (f_kind sp) eqn:K; destruct (f_shape sp) eqn:Sh; destruct v as [s|l|t vs]; cbn [elems_sat] in H;
@@ -591,7 +591,7 @@ Section P2.
   Qed.
 
   Lemma i_fields_id ty : forall ss vs,
-      Forall (elems_sat IE) vs -> c_fields ss vs = true -> i_fields intact ty ss vs = true ->
+      Forall (elems_sat IE) vs -> c_fields ty ss vs = true -> i_fields intact ty ss vs = true ->
       e_fields ty ss vs = vs.
   Proof.
     induction ss as [|sp ss IH]; intros vs H Hc Hi.
@@ -614,7 +614,7 @@ Section Cycles.
   Variable fields_of : string -> list fspec.
   Variable xmlname_of : string -> string.
   Variable cov : string -> fspec -> bool.
-  Variable elty : string -> option string.
+  Variable elty : string -> string -> option string.
   Hypothesis types_ok : forall ty, type_ok (fields_of ty) = true.
 
   Notation write := (write fields_of xmlname_of).
@@ -671,11 +671,11 @@ Section Covered.
   Variable fields_of : string -> list fspec.
   Variable xmlname_of : string -> string.
   Variable cov : string -> fspec -> bool.
-  Variable elty : string -> option string.
+  Variable elty : string -> string -> option string.
   Variable tys : list string.
-  Variable ok_root : string -> bool.
+  Variable ok_root : string -> string -> bool.
   Hypothesis tys_covered : forall ty sp, In ty tys -> In sp (fields_of ty) -> cov ty sp = true.
-  Hypothesis roots_readable : forall t, ok_root t = true -> elty (xmlname_of t) = Some t.
+  Hypothesis roots_readable : forall ty t, ok_root ty t = true -> elty ty (xmlname_of t) = Some t.
 
   Notation conforms := (conforms fields_of xmlname_of elty).
   Notation intact := (intact fields_of xmlname_of cov elty).
@@ -690,18 +690,18 @@ Section Covered.
     rewrite (Hq Hu1), (IH Hl Hu2). reflexivity.
   Qed.
 
-  Lemma u_any l :
-    Forall UI l -> forallb (fun c => ok_root (d_ty c) && uses_only c) l = true ->
-    forallb (fun c => readable xmlname_of elty c && intact c) l = true.
+  Lemma u_any ty l :
+    Forall UI l -> forallb (fun c => ok_root ty (d_ty c) && uses_only c) l = true ->
+    forallb (fun c => readable xmlname_of elty ty c && intact c) l = true.
   Proof.
     induction l as [|c l IH]; intros H Hu; [reflexivity|]. inversion H as [|? ? Hq Hl]; subst.
     cbn [forallb] in *. apply andb_true_iff in Hu. destruct Hu as [Hu1 Hu2].
     apply andb_true_iff in Hu1. destruct Hu1 as [Hr Hu1].
-    unfold readable at 1. rewrite (roots_readable _ Hr), String.eqb_refl, (Hq Hu1), (IH Hl Hu2). reflexivity.
+    unfold readable at 1. rewrite (roots_readable _ _ Hr), String.eqb_refl, (Hq Hu1), (IH Hl Hu2). reflexivity.
   Qed.
 
   Lemma u_field_intact ty sp v :
-    elems_sat UI v -> cov ty sp = true -> u_field ok_root uses_only sp v = true ->
+    elems_sat UI v -> cov ty sp = true -> u_field ok_root uses_only ty sp v = true ->
     i_field xmlname_of cov elty intact ty sp v = true.
   Proof.
     intros H Hcov Hu. unfold u_field, i_field in *.
@@ -713,7 +713,7 @@ Section Covered.
 
   Lemma u_fields_intact ty : forall ss vs,
       Forall (elems_sat UI) vs -> (forall sp, In sp ss -> cov ty sp = true) ->
-      u_fields ok_root uses_only ss vs = true -> i_fields xmlname_of cov elty intact ty ss vs = true.
+      u_fields ok_root uses_only ty ss vs = true -> i_fields xmlname_of cov elty intact ty ss vs = true.
   Proof.
     induction ss as [|sp ss IH]; intros vs H Hcov Hu; [destruct vs; reflexivity|].
     destruct vs as [|v vs]; [reflexivity|]. inversion H as [|? ? Hv Hvs]; subst.
